@@ -25,6 +25,7 @@ PC = r"^gix_ref::store_impl::packed::transaction::<impl gix_ref::store_impl::pac
 
 
 def run(db, chk):
+    persist_is_one_rename(db, chk)
     ci, pc = db.one(CI), db.one(PC)
     scope = {f.key for c in ("gix_ref", "gix_lock", "gix_tempfile", "gix_fs") for f in db.by_crate[c]}
     parent = db.reachable([ci.key, pc.key], stop=lambda n: n not in scope)
@@ -142,3 +143,25 @@ def run(db, chk):
                 zero_edges |= e[0]
     chk.ob("packed-refs-removed-only-when-empty", "packed::Transaction::commit", bool(rm) and bool(zero_edges) and pfl.cut_off([c.block for c in rm], zero_edges), "", "%s:%d" % (pc.file, pc.line), key="remove-only-when-empty")
     chk.ob("packed-written-then-committed", "packed::Transaction::commit", len(fin) == 1 and all(fin[0].block in pc.reach_from(w.block) and w.block not in pc.reach_from(fin[0].block) for w in wm), "", "%s:%d" % (pc.file, pc.line), key="packed-written-then-committed")
+
+
+def persist_is_one_rename(db, chk):
+    """every lock commit (loose refs, packed-refs) ends in ForksafeTempfile::persist -> tempfile's persist = ONE rename(2) onto the destination.
+    Old-or-new at every crash point needs exactly that: nothing in gix_tempfile's persist path removes or truncates the destination first
+    (`unlink then rename` leaves a window in which the ref is missing or its stale packed value shows).  Zero-expected over the call-graph
+    closure of persist/persist_inner inside gix-tempfile, with a positive control for the pattern elsewhere in the crate."""
+    REMOVE = r"fs::remove_file$|fs::remove_dir\w*$|fs::rename$|File::set_len$|OpenOptions::truncate$|fs::write$|File::create$"
+    roots = [f for f in db.by_crate["gix_tempfile"] if f.kind != "promoted" and re.search(r"forksafe::ForksafeTempfile::persist(_inner)?$|Handle<.*>>::persist$", f.name)]
+    chk.floor("gix_tempfile persist functions", len(roots), 2)
+    in_tf = lambda n: n.startswith("gix_tempfile::") or n.startswith("<gix_tempfile::")
+    reach = db.reachable([f.key for f in roots], stop=lambda n: not in_tf(n))
+    fns = [db.fns[n] for n in reach if n in db.fns and in_tf(db.fns[n].name)]
+    ctl = sum(1 for f in db.by_crate["gix_tempfile"] for c in f.calls() if c.is_(REMOVE))
+    chk.floor("control: remove_file/rename recognised in gix_tempfile (cleanup paths)", ctl, 1)
+    hits = [(f, c) for f in fns for c in f.calls() if c.is_(REMOVE) and "drop" not in f.name.lower()]
+    for f, c in hits:
+        chk.ob("persist-is-a-single-rename", "%s %s@%d" % (f.name.split("::")[-1], c.name.split("::")[-1], c.line), False,
+               "the persist path touches the file system besides tempfile's rename: with `unlink destination, then rename` a crash in between loses the old value (ref missing / stale packed value)",
+               c.where(), key="persist-rename|%s|%s" % (f.name.split("::")[-1], c.name.split("::")[-1]))
+    if not hits:
+        chk.ob("persist-is-a-single-rename", "gix_tempfile persist closure (%d functions)" % len(fns), True)
